@@ -277,8 +277,10 @@ static void N(check)(N(run_t) *r, int probe_absent, const char *desc)
             if (c->glyphs[j & HASH_MASK] == NULL) { vf_violation("c17-entry-unreachable", "%s: glyph %c in slot %d is cut off from its home slot %d by the empty slot %d [%s]", desc, 'a' + k, i, N(home)[k], j & HASH_MASK, N(canon_str)(cv, cs, sizeof cs)); return; }
         if ((const void *)g != m->ptr[k]) { vf_violation("c17-entry-identity", "%s: entry of %c is %p, insert returned %p", desc, 'a' + k, (void *)g, m->ptr[k]); return; }
         pixman_image_t *im = g->image;
-        if (g->origin_x != N(gox)(k) || g->origin_y != N(goy)(k) || !im || im->type != BITS || im->bits.format != N(gfmt)(k) || im->bits.width != N(gw)(k) || im->bits.height != N(gh)(k)) {
-            vf_violation("c17-entry-content", "%s: entry %c has origin (%d,%d) format %#x size %dx%d; inserted origin (%d,%d) format %#x size %dx%d", desc, 'a' + k, g->origin_x, g->origin_y,
+        /* the stored origin is read through the public extents query (box of the glyph drawn at pen position 0,0 = -origin .. size - origin), not from the entry's fields */
+        int g_ox, g_oy; { pixman_glyph_t pg0 = { 0, 0, g }; pixman_box32_t ex = { 0, 0, 0, 0 }; L(pixman_glyph_get_extents)(c, 1, &pg0, &ex); g_ox = -ex.x1; g_oy = -ex.y1; }
+        if (g_ox != N(gox)(k) || g_oy != N(goy)(k) || !im || im->type != BITS || im->bits.format != N(gfmt)(k) || im->bits.width != N(gw)(k) || im->bits.height != N(gh)(k)) {
+            vf_violation("c17-entry-content", "%s: entry %c has origin (%d,%d) format %#x size %dx%d; inserted origin (%d,%d) format %#x size %dx%d", desc, 'a' + k, g_ox, g_oy,
                          im ? im->bits.format : 0, im ? im->bits.width : 0, im ? im->bits.height : 0, N(gox)(k), N(goy)(k), N(gfmt)(k), N(gw)(k), N(gh)(k));
             return;
         }
